@@ -11,6 +11,9 @@ HARNESS = {
     "C02": "c01_c02",
     "C03": "c03",
     "C05": "c05",
+    "C06": "c06",
+    "C07": "c07_c08",
+    "C08": "c07_c08",
 }
 
 
